@@ -36,10 +36,10 @@ SPEC = dict(
         job('paths-str', 'h_fs', 'paths-str', sources=_SRC, cases=-1, scale={Q: 8, T: 10}, procs=16),
         job('paths-comp', 'h_fs', 'paths-comp', sources=_SRC, cases=-1, scale={Q: 4, T: 5}, procs=16),
         job('paths-rel', 'h_fs', 'paths-rel', sources=_SRC, cases=-1, scale={Q: 3, T: 4}, procs=16),
-        job('paths-rand', 'h_fs', 'paths-rand', sources=_SRC, cases={Q: 40000, T: 1500000}, procs=16),
-        job('files', 'h_fs', 'files', sources=_SRC, cases={Q: 2400, T: 100000}, procs=16),
-        job('files-alias', 'h_fs', 'files-alias', sources=_SRC, cases={Q: 1600, T: 60000}, procs=16),
-        job('trees', 'h_fs', 'trees', sources=_SRC, cases={Q: 960, T: 40000}, procs=16),
+        job('paths-rand', 'h_fs', 'paths-rand', sources=_SRC, cases={Q: 80000, T: 1500000}, procs=16),
+        job('files', 'h_fs', 'files', sources=_SRC, cases={Q: 4800, T: 100000}, procs=16),
+        job('files-alias', 'h_fs', 'files-alias', sources=_SRC, cases={Q: 3200, T: 60000}, procs=16),
+        job('trees', 'h_fs', 'trees', sources=_SRC, cases={Q: 1920, T: 40000}, procs=16),
     ],
     floors={Q: dict(path_inputs=500000, cmp_relative=100000, rel_answers=50000, ops=100000, bytes_compared=100000000, ops_with_injected_failure=5000, trees_removed=800,
                     symlinks_inside_removed_trees=1000, snapshot_entries_compared=80000, create_true=1000, create_false=500,
